@@ -239,21 +239,24 @@ Proof. exact pathbadger_log_roundtrip_lem. Qed.
 Print Assumptions pathbadger_log_roundtrip.
 
 Theorem pathbadger_served :
-  forall (pos_of : bytes -> dbkey) (rootnode : option snode) (endv : N) (old : kvmap) (ops : list op),
+  forall (startv : N) (pos_of : bytes -> dbkey) (rootnode : option snode) (endv : N) (old : kvmap) (ops : list op),
   NoDup (map pos_of (map fst (contents (run_batch old ops)))) ->
   Forall (fun k => pos_of k <> (endv, INDEX_ROOT)) (map fst (contents (run_batch old ops))) ->
-  (forall k, In k (map fst (commit_writelog (run_batch old ops))) -> ptr_invalid old ops k = false) ->
-  pb_served pos_of rootnode endv old ops = Some (commit_writelog (run_batch old ops)).
+  (forall k, In k (map fst (commit_writelog (run_batch old ops))) -> ptr_class old ops k = 0) ->
+  pb_served startv pos_of rootnode endv old ops = Some (commit_writelog (run_batch old ops)).
 Proof. exact pathbadger_served_lem. Qed.
 Print Assumptions pathbadger_served.
 
+(* unservable as soon as one inserted leaf carries the invalid pointer (class 1)
+   or the root slot of the start version (class 2) *)
 Theorem pathbadger_unservable :
-  forall (pos_of : bytes -> dbkey) (rootnode : option snode) (endv : N) (old : kvmap) (ops : list op)
+  forall (startv : N) (pos_of : bytes -> dbkey) (rootnode : option snode) (endv : N) (old : kvmap) (ops : list op)
          (k v : bytes),
-  Forall (fun k => pos_of k <> invalid_ptr) (map fst (contents (run_batch old ops))) ->
-  endv <> VERSION_INVALID ->
-  In (k, Some v) (commit_writelog (run_batch old ops)) -> ptr_invalid old ops k = true ->
-  pb_served pos_of rootnode endv old ops = None.
+  Forall (fun k => pos_of k <> invalid_ptr /\ pos_of k <> (startv, INDEX_ROOT))
+         (map fst (contents (run_batch old ops))) ->
+  endv <> VERSION_INVALID -> startv <> endv ->
+  In (k, Some v) (commit_writelog (run_batch old ops)) -> ptr_class old ops k <> 0 ->
+  pb_served startv pos_of rootnode endv old ops = None.
 Proof. exact pathbadger_unservable_lem. Qed.
 Print Assumptions pathbadger_unservable.
 
@@ -267,7 +270,7 @@ Theorem pathbadger_log_unservable_refuted :
            (map fst (contents (run_batch old ops))) /\
     commit_writelog (run_batch old ops) = [([99], Some [])] /\
     apply_writelog old (commit_writelog (run_batch old ops)) = contents (run_batch old ops) /\
-    pb_served pos_of rootnode endv old ops = None.
+    pb_served 2 pos_of rootnode endv old ops = None.
 Proof. exact pathbadger_log_unservable_refuted_lem. Qed.
 Print Assumptions pathbadger_log_unservable_refuted.
 
@@ -366,14 +369,14 @@ Print Assumptions pathbadger_served_log_stable.
 (* chains: the log stored for a committed batch is served, after any later
    history, and takes the start contents to the end contents *)
 Theorem pathbadger_chain_log_correct :
-  forall (db : pbdb) (b : batch) (t : list tcall) (old : kvmap) (ops : list op) (pos_of : bytes -> dbkey),
+  forall (db : pbdb) (b : batch) (t : list tcall) (old : kvmap) (ops : list op) (startv : N) (pos_of : bytes -> dbkey),
   sorted old ->
   is_finalized (d_fin db) (fst (b_end b)) = false ->
   has_rid db (b_end b) = false ->
   follows_v (b_start b) (b_end b) = true ->
-  b_log b = make_internal (annotate pos_of old ops) ->
+  b_log b = make_internal (annotate startv pos_of old ops) ->
   commit_writelog (run_batch old ops) <> [] ->
-  (forall k v p, In (k, Some (v, p)) (annotate pos_of old ops) ->
+  (forall k v p, In (k, Some (v, p)) (annotate startv pos_of old ops) ->
      exists n, view_at (view_seq0 db b) (b_root b) (fst (b_end b)) p = Some n /\
                leaf_from_db n = (k, Some v)) ->
   Forall (later_call (fst (b_end b))) t ->
@@ -431,3 +434,15 @@ Theorem pathbadger_seq_wrap_refuted :
     [OSeq 0; OBurn 65534; ORefused; OGet (GServed [([97], Some [1]); ([98], Some [1])])].
 Proof. exact seq_wrap_refuted_lem. Qed.
 Print Assumptions pathbadger_seq_wrap_refuted.
+
+(* second stored state behind the same finding: a tree of one leaf (the root
+   node) whose value is re-inserted unchanged: the log keeps the root slot of
+   the start version, which GetWriteLog does not resolve *)
+Theorem pathbadger_log_old_root_slot_refuted :
+  ptr_class [([99], [])] rf_ops [99] = 2 /\
+  commit_writelog (run_batch [([99], [])] rf_ops) = [([99], Some [])] /\
+  make_internal (annotate 2 rf_pos [([99], [])] rf_ops) = [IInsert (2, 0)] /\
+  pb_served 2 rf_pos (Some (SLeaf [99] [])) 3 [([99], [])] rf_ops = None /\
+  commit_writelog (run_batch [([99], [])] []) = [].
+Proof. exact pathbadger_log_old_root_slot_refuted_lem. Qed.
+Print Assumptions pathbadger_log_old_root_slot_refuted.
